@@ -29,7 +29,8 @@ in order).
           `locked()` also counts woken tasks that have not run yet)
   `d<i>:<taken>:<count>`  holder i leaves: `finally` block (record, maybe recalibrate), `__aexit__`
   `r<i>`  the woken caller i runs (must be the first woken task)
-  `c<i>`  a queued caller is cancelled -/
+  `c<i>`  a queued caller is cancelled (also: a woken caller cancelled before it ran — the permit
+          goes back and the next waiter is woken) -/
 structure SS where
   st : C13.Lim
   woken : List Nat
@@ -85,7 +86,16 @@ def sstep (c : OCfg) (s : SS) : SOp → SS × List C13.Ev × Option Rat
   | .cancel i =>
       if i ∈ s.st.waiters then
         ({ s with st := { s.st with waiters := s.st.waiters.erase i } }, [C13.Ev.cancelled i], none)
-      else (s, [C13.Ev.bad], none)
+      else
+        -- the cancelled caller had already been woken (its future has a result) and runs now:
+        -- `except CancelledError: if not fut.cancelled(): self._value += 1; self._wake_up_next()`
+        match s.woken with
+        | j :: rest =>
+            if i = j then
+              let w := C13.release ⟨s.st, rest, []⟩
+              ({ s with st := w.st, woken := w.woken }, [C13.Ev.cancelled i], none)
+            else (s, [C13.Ev.bad], none)
+        | [] => (s, [C13.Ev.bad], none)
 
 def srecord (s : SS) (evs : List C13.Ev) (pre : Option Rat) : String :=
   let e := if evs.isEmpty then "-" else String.intercalate "," (evs.map showEv)
